@@ -252,6 +252,34 @@ def _realise_inner(ex, ctx, name, claim, T, regs, cls_name, ctype, cone, W, alph
                     ex.notes.get("unrealisable_tables(discarded: no geometry yields them)", 0) + 1
                 ex.realise_attempts -= 1
                 return
+            if m0 != "unknown" and rtype == "hyperrectangle" and np.all(np.isin(W, (0.0, 1.0, -1.0))):
+                # realisable on a predicate boundary only (e.g. two rectangles that pessimistically dominate each other).
+                # For 0/±1 cone matrices and dyadic corners the real rectangle code is exact at ties: ask for a model on the
+                # 1/8 lattice and replay it with the tie-exact pessimistic oracle.
+                A.EXACT = True
+                try:
+                    defs0, _ = build_defs()
+                    lat = []
+                    for r in regs:
+                        for e in zs(r.lower) + zs(r.upper):
+                            ctx.counter += 1
+                            k_ = z3.Int(f"lat!{ctx.counter}")
+                            lat += [e * 8 == z3.ToReal(k_), k_ >= -64, k_ <= 64]
+                    m1 = ctx.satisfiable([z3.Not(claim)] + defs0 + lat + [eps.e >= Fraction(1, 16), eps.e <= 2], timeout_ms=45000)
+                except Inconclusive:
+                    m1 = None
+                finally:
+                    A.EXACT = False
+                if m1 is not None:
+                    mv = lambda e: model_value(m1, e)  # noqa
+                    rj = [{"lower": frac_json([mv(e) for e in zs(r.lower)]), "upper": frac_json([mv(e) for e in zs(r.upper)])} for r in regs]
+                    S, P, U = state["pre"]
+                    ex.candidate(name, {"kind": "transition", "prop": prop, "cls": cls_name, "ctype": ctype, "cone": cone, "W": W.tolist(),
+                                        "N": N, "pre": [sorted(S), sorted(P), sorted(U)], "eps": frac_json(mv(eps.e)), "regions": rj,
+                                        "latch": state.get("latch"), "depths": list(state.get("depths") or []), "claim": name,
+                                        "boundary": True},
+                                 {"cls": cls_name, "region": rtype, "cone": cone, "claim": name, "boundary": True})
+                    return
             ex.inconclusive.append(f"table refuting '{name}' is realisable only on a predicate boundary (or the exact query "
                                    f"was undecided): not replayable with a numerical solver")
         else:
@@ -292,8 +320,9 @@ def _key_terms(cls_name, a, alpha, eps, n, key):
 
 
 # ------------------------------------------------------------------------------------------
-def _concrete_predicates(W, rtype, regs):
-    """independent concrete oracles with a boundary band: return True/False/None (None = near tie)"""
+def _concrete_predicates(W, rtype, regs, exact_pd=False):
+    """independent concrete oracles with a boundary band: return True/False/None (None = near tie);
+    exact_pd: the pessimistic comparison of rectangles is decided exactly (ties included) in rational arithmetic"""
     from checks import c09, c10, c11
     K, m = W.shape
 
@@ -328,6 +357,9 @@ def _concrete_predicates(W, rtype, regs):
         ex_ = lambda v: [Fraction(float(x)) for x in v]  # noqa
         res = []
         for v in itertools.product(*zip(regs[j].lower, regs[j].upper)):
+            if exact_pd:
+                res.append(c11.exact_point_oracle(W, ex_(v), ex_(regs[i].lower), ex_(regs[i].upper), Fraction(0)))
+                continue
             sure = c11.exact_point_oracle(W, ex_(v), ex_(regs[i].lower), ex_(regs[i].upper), Fraction(1, 10**7))
             poss = c11.exact_point_oracle(W, ex_(v), ex_(regs[i].lower), ex_(regs[i].upper), -Fraction(1, 10**7))
             if sure != poss:
@@ -411,7 +443,7 @@ def replay(case):
         s_eps = np.asarray(a.u_star) * eps
     if len(s_eps) != nsl:
         return {"reproduced": False, "detail": "slack size differs from the region kind's expectation (C06)"}
-    dom, cov, pd = _concrete_predicates(W, rtype, regs)
+    dom, cov, pd = _concrete_predicates(W, rtype, regs, exact_pd=bool(case.get("boundary")))
     gate_ok = lambda S1: True  # noqa
     if cls_name == "VOGP_AD" and not case["latch"]:
         gate_ok = lambda S1: all(case["depths"][i] == a.max_discretization_depth for i in S1)  # noqa
